@@ -102,3 +102,49 @@ fn ink_list_write_two_items() {
     kani::cover!(x == 0, "must: zero value");
     std::mem::forget((l, v));
 }
+
+// write_choice: a pending choice in a save. The numeric fields (index, originalThreadIndex) are
+// symbolic; text and paths are concrete.
+fn str_written(key: &str) -> Option<&'static str> {
+    let s = side();
+    let mut i = 0;
+    while i < s.len() {
+        if s[i].0 == key {
+            return s[i].1.as_str();
+        }
+        i += 1;
+    }
+    None
+}
+fn u64_written(key: &str) -> Option<u64> {
+    let s = side();
+    let mut i = 0;
+    while i < s.len() {
+        if s[i].0 == key {
+            return s[i].1.as_u64();
+        }
+        i += 1;
+    }
+    None
+}
+
+#[kani::proof]
+#[kani::unwind(24)]
+#[kani::stub(serde_json::Map::insert, stub_map_insert)]
+fn choice_write_indices() {
+    let idx: usize = kani::any();
+    let th: usize = kani::any();
+    let c = Choice::new_from_json("0", "0.1".to_string(), "hi", idx, th, Vec::new());
+    let v = write_choice(&c);
+    assert!(v.is_object(), "C02: a choice must be written as a JSON object");
+    assert!(u64_written("index") == Some(idx as u64), "C02: choice index not written as is");
+    assert!(u64_written("originalThreadIndex") == Some(th as u64), "C02: choice originalThreadIndex not written as is");
+    assert!(str_written("text") == Some("hi"), "C02: choice text not written as is");
+    assert!(str_written("originalChoicePath") == Some("0.1"), "C02: choice originalChoicePath not written as is");
+    assert!(str_written("targetPath") == Some("0"), "C02: choice targetPath not written as is");
+    kani::cover!(idx == 3 && th == 1, "must: typical indices");
+    std::mem::forget((c, v));
+}
+
+// The read-back half (write_choice -> jtoken_to_runtime_object with Map::get stubbed as well) was probed and
+// does not finish (900 s): ~16 key probes over six entries plus Choice construction. Outside the claim.
